@@ -239,3 +239,78 @@ out:
 	}
 	return out, nil
 }
+
+// Hold registers stop sites for a label outside RunSchedule (free-form use).
+func (c *Controller) Hold(label string, sites ...string) {
+	c.mu.Lock()
+	st := map[string]bool{}
+	for _, s := range sites {
+		st[s] = true
+	}
+	c.stops[label] = st
+	c.arr[label] = make(chan arrival, 64)
+	c.mu.Unlock()
+}
+
+// Held is a request blocked at a stop site.
+type Held struct{ a arrival }
+
+func (h *Held) Site() string { return h.a.site }
+
+// Release lets the blocked request continue.
+func (h *Held) Release() {
+	h.a.conn.Write([]byte("go\n"))
+	h.a.conn.Close()
+}
+
+// WaitArrival waits for the next request of label to reach one of its stop sites.
+func (c *Controller) WaitArrival(label string, d time.Duration) *Held {
+	c.mu.Lock()
+	ch := c.arr[label]
+	c.mu.Unlock()
+	if ch == nil {
+		return nil
+	}
+	select {
+	case a := <-ch:
+		return &Held{a}
+	case <-time.After(d):
+		return nil
+	}
+}
+
+// Unhold removes the label's stop sites and releases everything queued (also what
+// a concurrent handler queues in the next moments).
+func (c *Controller) Unhold(label string) {
+	c.mu.Lock()
+	ch := c.arr[label]
+	delete(c.stops, label)
+	c.mu.Unlock()
+	if ch == nil {
+		return
+	}
+	deadline := time.After(150 * time.Millisecond)
+	for {
+		select {
+		case a := <-ch:
+			a.conn.Write([]byte("go\n"))
+			a.conn.Close()
+		case <-deadline:
+			c.mu.Lock()
+			if c.arr[label] == ch {
+				delete(c.arr, label)
+			}
+			c.mu.Unlock()
+			// one last sweep
+			for {
+				select {
+				case a := <-ch:
+					a.conn.Write([]byte("go\n"))
+					a.conn.Close()
+				default:
+					return
+				}
+			}
+		}
+	}
+}
